@@ -97,7 +97,22 @@ func scenarioC09(r *Run) {
 			}
 		}
 		keep := t.Bool(3, 5, "c09.keepraw")
-		if !keep {
+		partial := false
+		if keep && !dropped && t.Bool(1, 4, "c09.partial") {
+			// the relay edits only the unprotected side of the outermost layer
+			// (what attaching a countersignature does): the raw unprotected
+			// bytes of that layer are discarded, the raw protected bytes kept
+			partial = true
+			if rc.M1 != nil {
+				rc.M1.Headers.RawUnprotected = nil
+			} else {
+				rc.MS.Headers.RawUnprotected = nil
+				if len(rc.MS.Signatures) > 0 && rc.MS.Signatures[0] != nil {
+					rc.MS.Signatures[0].Headers.RawUnprotected = nil
+				}
+			}
+			pattern += "p"
+		} else if !keep {
 			rc.DropRawDeep()
 			pattern += "d"
 		} else {
@@ -115,7 +130,33 @@ func scenarioC09(r *Run) {
 			r.Outcome("reencode-refused")
 			return
 		}
-		if keep && !dropped {
+		if partial {
+			// protected bytes of every layer must be exactly the received
+			// ones, so every signature keeps its verdict
+			pin, pout := protectedItems(w.Dec, cur), protectedItems(w.Dec, out)
+			if len(pin) != len(pout) {
+				r.Fail("partial-raw-drop-changes-structure/"+spec.Kind.String(), "hop %d (only raw unprotected bytes discarded): number of protected headers changed from %d to %d\n input: %s\noutput: %s", h, len(pin), len(pout), hexShort(cur), hexShort(out))
+				return
+			}
+			for i := range pin {
+				if !bytes.Equal(pin[i].Data, pout[i].Data) {
+					r.Fail("partial-raw-drop-changes-protected-bytes/"+spec.Kind.String(), "hop %d: the relay discarded only the raw UNPROTECTED bytes, yet protected header %d was re-encoded\n before: %x\n  after: %x", h, i, pin[i].Data, pout[i].Data)
+					return
+				}
+			}
+			rc2, derr := r.Decode(spec.Kind, out)
+			if derr != nil {
+				r.Fail("reencoded-output-refused/"+spec.Kind.String(), "hop %d: own re-encoding refused: %v\n%s", h, derr, hexShort(out))
+				return
+			}
+			if v := r.VerifyLib(rc2, spec.External, vs...); (v == nil) != (v0 == nil) {
+				r.Fail("reencoding-changes-verdict/"+spec.Kind.String(), "hop %d (only raw unprotected bytes discarded): verdict before %v, after %v", h, v0, v)
+				return
+			}
+			r.Probe("hop-partial-raw-drop-compared")
+			// from here on the message is partly canonical: treat later hops
+			// like hops after a drop only once a full drop happened
+		} else if keep && !dropped {
 			want, perr := refcose.PredictReencode(spec.Kind, cur)
 			if perr != nil {
 				r.Fail("accepted-but-unparsable/"+spec.Kind.String(), "decoder accepted bytes the reference parser cannot read: %v\n%s", perr, hexShort(cur))
